@@ -425,4 +425,29 @@ theorem hasDataToPlot_iff (n : ℕ) (pres : List PresRow) (chans : List ℕ) (fi
 
 example : plotLoop (hasDataToPlot 81 [⟨1, 10⟩, ⟨2, 20⟩, ⟨2, 20⟩] [20]) [1, 2] = [2] := by decide
 
+/-- a LAS file "has" a format channel iff it holds the mnemonic itself or one of its listed alternates -/
+theorem hasOutpMnemLAS_iff (alts : ℕ → List ℕ) (curves : List ℕ) (m : ℕ) :
+    hasOutpMnemLAS alts curves m = true ↔ m ∈ curves ∨ ∃ a ∈ alts m, a ∈ curves := by
+  unfold hasOutpMnemLAS
+  by_cases h : m ∈ curves
+  · simp [h]
+  · simp [h, List.any_eq_true]
+
+/-- **`hasDataToPlotLAS`**: a LAS file is plotted with a format iff it has frames and SOME curve is an output name of the
+format or a listed alternate (`LGFORMAT_LAS`) of one — alternates count even when no curve carries a literal name. -/
+theorem hasDataToPlotLAS_iff (alts : ℕ → List ℕ) (frames : ℕ) (outs curves : List ℕ) :
+    hasDataToPlotLAS alts frames outs curves = true ↔
+      frames ≠ 0 ∧ ∃ o ∈ outs, o ∈ curves ∨ ∃ a ∈ alts o, a ∈ curves := by
+  unfold hasDataToPlotLAS
+  by_cases hn : frames = 0
+  · simp [hn]
+  · cases outs with
+    | nil => simp [hn]
+    | cons o os =>
+      simp only [hn, if_false, List.isEmpty_cons, Bool.false_eq_true, ne_eq, not_false_eq_true, true_and,
+        List.any_eq_true, hasOutpMnemLAS_iff]
+
+example : hasDataToPlotLAS (fun m => if m = 1 then [7] else []) 5 [1, 2] [7, 9] = true ∧
+    hasDataToPlotLAS (fun m => if m = 1 then [7] else []) 5 [1, 2] [8, 9] = false := by decide
+
 end TD.C19
